@@ -4,6 +4,7 @@
 //! loopback sockets; the reference is `Server::handle_message` itself
 //! called directly on the same server (no RRL, no TSIG: deterministic).
 
+use crate::zonemodel::RRec;
 use std::io::{Read, Write};
 use std::net::{IpAddr, Ipv4Addr, Ipv6Addr, Shutdown, SocketAddr, TcpListener, TcpStream, UdpSocket};
 use std::sync::Arc;
@@ -57,8 +58,25 @@ struct Instance {
 
 fn start_instance(rng: &mut Rng, tokio_provider: bool) -> Result<Instance, String> {
     let opts = CatalogOpts { zone: ZoneOpts { max_records: 12, hostile: false, bulky: rng.chance(1, 3) }, max_zones: 2, allow_unloaded: true, classes: vec![C_IN, C_CH] };
-    let built = gen_catalog(rng, &opts);
-    let names = interesting_names(rng, &built.reference);
+    let mut built = gen_catalog(rng, &opts);
+    let mut names = interesting_names(rng, &built.reference);
+    // every instance also serves one zone with a 50 KiB TXT RRset (for the back-pressure batch)
+    {
+        let apex = RName::simple("bp.");
+        let mut recs = vec![
+            RRec { owner: apex.clone(), rtype: T_SOA, class: C_IN, ttl: 60, rdata: crate::gen::soa_rdata(&apex.child(b"ns"), &apex.child(b"hm"), 1, 60) },
+            RRec { owner: apex.clone(), rtype: T_NS, class: C_IN, ttl: 60, rdata: RName::simple("ns.elsewhere.").wire() },
+        ];
+        for i in 0..200u8 {
+            let mut rd = vec![250u8];
+            rd.extend(std::iter::repeat(b'a' + (i % 26)).take(249));
+            rd.push(i);
+            recs.push(RRec { owner: apex.child(b"big"), rtype: T_TXT, class: C_IN, ttl: 60, rdata: rd });
+        }
+        let (_, qz, _) = crate::gen::build_zone(&apex, C_IN, &recs);
+        built.catalog.insert(quandary::db::catalog::Entry::Loaded(Arc::new(qz), 9_999));
+        names.push(apex.child(b"big"));
+    }
     let payload = *rng.pick(&[512u16, 1232, 4096]);
     let server = Arc::new(make_server(Arc::new(built.catalog), &ServerCfg { payload, rrl: None, keys: vec![] }));
     let v6 = rng.chance(1, 3);
@@ -496,6 +514,49 @@ fn slow_tcp(rng: &mut Rng, inst: &Instance, bufs: &mut Buffers) -> Result<String
     }
 }
 
+/// Back-pressure: some hundred pipelined queries for a 50 KiB answer while the client does not read
+/// for 1.5 s, so that several megabytes of responses pile up in the socket buffers. Every response
+/// must still arrive whole and in order.
+fn backpressure_tcp(inst: &Instance, bufs: &mut Buffers) -> Result<String, (String, String, Json)> {
+    let inc = |what: &str| ("inconclusive".to_string(), format!("backpressure: {}", what), Json::Null);
+    let mut spec = MsgSpec { id: 0x6001, ..Default::default() };
+    spec.questions.push((Some(NameEnc::Plain(RName::simple("big.bp."))), T_TXT, C_IN));
+    let (req, _) = encode(&spec);
+    let expected_one = match handle(&inst.server, &req, IpAddr::V4(Ipv4Addr::LOCALHOST), true, bufs) {
+        Ok(Some(r)) if r.len() > 20_000 => r,
+        _ => return Err(inc("no large response available")),
+    };
+    let n = (6_000_000 / expected_one.len()).max(50);
+    let mut sock = TcpStream::connect_timeout(&inst.connect_addr, Duration::from_secs(5)).map_err(|_| inc("connect"))?;
+    let _ = sock.set_read_timeout(Some(Duration::from_secs(20)));
+    let _ = sock.set_write_timeout(Some(Duration::from_secs(20)));
+    let mut out = Vec::new();
+    for _ in 0..n {
+        out.extend_from_slice(&(req.len() as u16).to_be_bytes());
+        out.extend_from_slice(&req);
+    }
+    sock.write_all(&out).map_err(|_| inc("write"))?;
+    std::thread::sleep(Duration::from_millis(1500));
+    let mut framed = (expected_one.len() as u16).to_be_bytes().to_vec();
+    framed.extend_from_slice(&expected_one);
+    let mut buf = vec![0u8; framed.len()];
+    for i in 0..n {
+        let mut got = 0;
+        while got < buf.len() {
+            match sock.read(&mut buf[got..]) {
+                Ok(0) => return Err(("tcp:backpressure:closed".into(), format!("the connection was closed after {} of {} responses ({} octets into the next one)", i, n, got), Json::Null)),
+                Ok(k) => got += k,
+                Err(e) if e.kind() == std::io::ErrorKind::WouldBlock || e.kind() == std::io::ErrorKind::TimedOut => return Err(inc("read timed out")),
+                Err(e) => return Err(("tcp:backpressure:closed".into(), format!("read error after {} of {} responses: {}", i, n, e), Json::Null)),
+            }
+        }
+        if buf != framed {
+            return Err(("tcp:backpressure:response-differs".into(), format!("response {} of {} pipelined {}-octet responses differs from the server's response to that request alone (client started reading 1.5 s late)", i, n, expected_one.len()), Json::obj(vec![("provider", Json::s(inst.kind.clone())), ("request", Json::hex(&req))])));
+        }
+    }
+    Ok("tcp:backpressure".into())
+}
+
 /// A small pass through a real I/O provider for properties that are stated about "the response"
 /// without naming an entry point (C03): the octets a client receives over TCP/UDP must be the
 /// octets `handle_message` produced for that request alone, for which the property's own monitor
@@ -552,6 +613,23 @@ pub fn run(ctx: &Ctx, rep: &mut Report) {
                 Ok(class) => {
                     rep.class(&format!("{}:{}", inst.kind.split(':').next().unwrap_or(""), class));
                     rep.hist(&format!("{}:slow-clients", inst.kind.split(':').next().unwrap_or("")));
+                }
+                Err((sig, detail, w)) => {
+                    if sig == "inconclusive" {
+                        rep.hist(&format!("inconclusive:{}", detail.split(':').next().unwrap_or("")));
+                    } else {
+                        rep.violation(format!("c30:{}:{}", inst.kind.split(':').next().unwrap_or(""), sig), format!("{} [{}]", detail, inst.kind), w);
+                    }
+                }
+            }
+        }
+        if case < 2 && ctx.shard % 4 == 1 {
+            // one back-pressure batch per provider kind in every fourth shard (about 6 MB each)
+            rep.eval();
+            match backpressure_tcp(&inst, &mut bufs) {
+                Ok(class) => {
+                    rep.class(&format!("{}:{}", inst.kind.split(':').next().unwrap_or(""), class));
+                    rep.hist(&format!("{}:backpressure-batches", inst.kind.split(':').next().unwrap_or("")));
                 }
                 Err((sig, detail, w)) => {
                     if sig == "inconclusive" {
